@@ -7,7 +7,7 @@ from oracles import selspec
 PID = 'C01'
 
 
-def oracle(ck, scenarios, recs):
+def oracle(ck, scenarios, recs, what='CSS designates'):
     """Implementation vs the independent reference semantics (selspec) on the source AST."""
     import soupsieve as sv
     for sc in scenarios:
@@ -20,7 +20,11 @@ def oracle(ck, scenarios, recs):
                                  {'pattern': pattern, 'observed': repr(c)[:300]})
                 continue
             D = selspec.Doc(sc.top, ns)
-            exp = selspec.select(D, sc.top, a)
+            try:
+                exp = selspec.select(D, sc.top, a)
+            except selspec.NotJudged:
+                ck.notes['not_judged'] = ck.notes.get('not_judged', 0) + 1
+                continue
             with warnings.catch_warnings():
                 warnings.simplefilter('ignore')
                 try:
